@@ -52,6 +52,8 @@ def _fill_shapes_slide(prs, pptx, MSO_CONNECTOR, MSO_SHAPE, Inches):
     a.fill.solid()
     b = sh.add_shape(MSO_SHAPE.OVAL, Inches(8), Inches(2.5), Inches(1), Inches(1))                  # [10] gradient fill
     b.fill.gradient()
+    # stops strictly inside the range (as an authored gradient has them): a new position may pass the neighbouring stop's in either direction
+    b.fill.gradient_stops[0].position, b.fill.gradient_stops[1].position = 0.3, 0.7
     c = sh.add_shape(MSO_SHAPE.OVAL, Inches(8), Inches(4), Inches(1), Inches(1))                    # [11] pattern fill
     c.fill.patterned()
 
